@@ -15,7 +15,7 @@ for id in $IDS; do
   if [ $rc -ne 0 ]; then
     bad="$bad $id(rc=$rc)"
     echo "---- $id rc=$rc on $(basename "$(dirname "$PATCH")")/$(basename "$PATCH")"
-    grep -A3 '^VIOLATION\|HARNESS-ERROR\|INCONCLUSIVE\|^# \|cannot\|undefined' "$OUT/$id.log" | head -24
+    grep -A3 '^VIOLATION\|^ENGINE-ERROR\|HARNESS-ERROR\|INCONCLUSIVE\|^# \|cannot\|undefined' "$OUT/$id.log" | head -24
   fi
 done
 echo "BENIGN $PATCH alarms:[$bad ]"
